@@ -105,6 +105,8 @@ def floors(tier):
         "B:schedules_with_infinite_metric_values": 150 * k,
         "B:slots_failed_for_lack_of_configurations": 20 * k,
         "B:promotions_after_space_ran_dry": 5 * k,
+        "B:caller_modifies_its_rung_list_after_construction": 30 * k,
+        "B:dehb_slot_metric_checked:target_won_selection": 2000 * k,
     }
 
 
@@ -262,6 +264,7 @@ def expand_b(spec):
     p["space"] = gen.small_space(rng, ensure_infinite=True, ordinal_kinds=("equal",))
     # diverged trainings: some trials report +inf / -inf (legal metric values: they rank last / first, they are not failures)
     p["inf_frac"] = rng.choice([0.0, 0.0, 0.1, 0.3])
+    p["caller_reuses_rungs"] = rng.random() < 0.4
     if p["kind"].startswith("sync") and rng.random() < 0.2:
         # a finite space that runs dry while a rung is only partly filled: the slot that cannot be filled counts as failed,
         # the trials already started go on and the best of them are promoted (the experiment is continued after the None)
@@ -282,18 +285,31 @@ def build_sync(p, space, seed):
     else:
         kw["max_resource_level"] = p["max_level"]
     if p["kind"] == "sync_custom":
-        s = sy.SynchronousHyperbandScheduler(space, bracket_rungs=[[tuple(x) for x in b] for b in p["bracket_rungs"]], **kw)
+        arg = [[tuple(x) for x in b] for b in p["bracket_rungs"]]
+        s = sy.SynchronousHyperbandScheduler(space, bracket_rungs=arg, **kw)
+        if p.get("caller_reuses_rungs"):
+            # the caller goes on using its own list (e.g. to configure a second, larger experiment): none of the scheduler's business
+            for b in arg:
+                for i in range(len(b)):
+                    b[i] = (b[i][0] + 2 + i, b[i][1] + 1 + i)
+                b.append((1, b[-1][1] + 5))
+            arg.append([(1, 99)])
     elif p["kind"] == "sync_geometric":
         s = sy.SynchronousGeometricHyperbandScheduler(
             space, grace_period=p["grace_period"], reduction_factor=p["reduction_factor"], brackets=p["brackets"], **kw)
     elif p["kind"] == "dehb":
+        arg = [tuple(x) for x in p["rungs_first_bracket"]]
         s = sy.DifferentialEvolutionHyperbandScheduler(
-            space, rungs_first_bracket=[tuple(x) for x in p["rungs_first_bracket"]],
+            space, rungs_first_bracket=arg,
             num_brackets_per_iteration=p["num_brackets"], support_pause_resume=p["support_pause_resume"], **kw)
     else:
         s = sy.GeometricDifferentialEvolutionHyperbandScheduler(
             space, grace_period=p["grace_period"], reduction_factor=p["reduction_factor"], brackets=p["brackets"],
             support_pause_resume=p["support_pause_resume"], **kw)
+    if p["kind"] == "dehb" and p.get("caller_reuses_rungs"):
+        for i in range(len(arg)):
+            arg[i] = (arg[i][0] + 2 + i, arg[i][1] + 1 + i)
+        arg.append((1, arg[-1][1] + 5))
     return s
 
 
@@ -433,6 +449,23 @@ class MonitorB:
                 o.inconclusive("dehb_slot_result_not_observed")
                 return
             winner, metric = rec
+            # ... but whichever trial occupies the slot, the rung must rank it by a value that trial reported (the 'best ones
+            # of the completed rung' are decided by these values). DEHB uses the slot trial's most recent value, which for a
+            # target promoted in the first bracket meanwhile may stem from a higher level: counted, not judged.
+            wt = vt.trials.get(winner)
+            vals = [] if wt is None else [v for (_rn, lv, v, _d) in wt.reports]
+            if vals and not any(metric == v for (_rn, lv, v, _d) in wt.reports if lv == level) and any(metric == v for v in vals):
+                o.count("B:dehb_slot_ranked_by_value_from_another_level")
+            if vals:
+                o.count("B:dehb_slot_metric_checked")
+                if winner != tid:
+                    o.count("B:dehb_slot_metric_checked:target_won_selection")
+                if not any(metric == v for v in vals):
+                    o.violate("best_of_completed_rung", "dehb:slot_ranked_by_a_value_its_trial_did_not_report:"
+                              + ("target_won_selection" if winner != tid else "new_trial_won"),
+                              {"slot_trial": winner, "evaluated_trial": tid, "level": level, "slot_metric": metric, "reported_at_level": vals[:5]})
+            else:
+                o.count("B:dehb_slot_trial_without_report_at_level")
         before = self.val.stats["rung_completions"]
         self.val.on_result(key, winner, metric)
         self._after_result(b, rung_index, before)
@@ -474,6 +507,17 @@ def run_engine_b(spec, o):
     mgr = sched.bracket_manager
     systems = [[tuple(x) for x in b] for b in mgr.bracket_rungs]
     dehb = p["kind"].startswith("dehb")
+    if p["kind"] == "sync_custom":
+        # the rung systems the scheduler was configured with are the reference, not what the manager says they are now
+        conf = [[tuple(x) for x in b] for b in p["bracket_rungs"]]
+        o.count("B:configured_rung_systems_compared")
+        if p.get("caller_reuses_rungs"):
+            o.count("B:caller_modifies_its_rung_list_after_construction")
+        if conf != systems:
+            o.violate("brackets_cycle_through_configured_systems", "sync:rung_systems_in_use_differ_from_the_configured_ones"
+                      + (":caller_modified_its_list_after_construction" if p.get("caller_reuses_rungs") else ""),
+                      {"configured": conf, "in_use": systems})
+            systems = conf
     val = BracketValidator(systems, p["mode"], dehb=dehb)
     joblog = []
     orig_next = mgr.next_job
